@@ -79,7 +79,29 @@ func fvOf(v float64, bits int) SX {
 	case math.IsInf(v, -1):
 		cls = 2
 	}
-	return L(I(cls), B(strconv.AppendFloat(nil, v, 'f', -1, bits)))
+	txt := strconv.AppendFloat(nil, v, 'f', -1, bits)
+	if cls == 3 { // assumption monitor: strconv's shortest text parses back to the same bits
+		back, err := strconv.ParseFloat(string(txt), bits)
+		same := err == nil && math.Float64bits(back) == math.Float64bits(v)
+		if bits == 32 {
+			same = err == nil && math.Float32bits(float32(back)) == math.Float32bits(float32(v))
+		}
+		floatMonitorChecked++
+		if !same {
+			floatMonitorFailures = append(floatMonitorFailures, fmt.Sprintf("%x/%d -> %s", math.Float64bits(v), bits, txt))
+		}
+	}
+	return L(I(cls), B(txt))
+}
+
+var floatMonitorChecked int
+var floatMonitorFailures []string
+
+func reportFloatMonitor(c *Ctx) {
+	c.Info("float_roundtrip_checked", fmt.Sprint(floatMonitorChecked))
+	for _, f := range floatMonitorFailures {
+		c.Assume("strconv float text does not parse back to the same bits: " + f)
+	}
 }
 
 var floatPool = []float64{0, math.Copysign(0, -1), 1, -1, 0.1, 1e21, 1e-7, 123456789.125, math.MaxFloat64, math.SmallestNonzeroFloat64,
